@@ -173,6 +173,11 @@ impl Cache {
     fn random_shard_id(&self) -> usize {
         use rand::Rng;
 
+        #[cfg(kismet_verif)]
+        if let Some(id) = crate::verif::scripted_shard(self.num_shards) {
+            return id;
+        }
+
         rand::thread_rng().gen_range(0..self.num_shards)
     }
 
